@@ -83,33 +83,24 @@ class ModeEval:
         raise NotComparison("cannot evaluate %s" % render(n)[:60])
 
     def mode_string(self, fn, mode):
+        """the string built by get_mode_unix for one mode word: the function body is interpreted (rules/interp.py), calls to
+        the mode predicates are answered by this evaluator (cached)"""
+        import interp
         f = self.ctx.prog.fns[fn]
-        pname = f["params"][0]["name"]
-        env = {pname: mode}
-        out = []
+        pid = f["params"][0]["id"]
 
-        def run(n):
-            n = peel(n, methods=False)
-            k = n["k"]
-            if k == "Block":
-                for s in n["stmts"]:
-                    run(s)
-                if "expr" in n:
-                    run(n["expr"])
-            elif k == "If":
-                if self.ev(n["c"], env):
-                    run(n["t"])
-                elif "e" in n:
-                    run(n["e"])
-            elif k == "MCall" and n["m"] == "push":
-                out.append(str(peel(n["args"][0])["v"]))
-            elif k in ("Let", "Path"):
-                pass
-            else:
-                raise NotComparison("cannot interpret %s" % render(n)[:60])
-
-        run(f["hir"])
-        return "".join(out)
+        def call(node, recv, args, it, env):
+            callee = node.get("callee")
+            if node["k"] == "Call" and callee in self.ctx.prog.fns and len(args) == 1 and isinstance(args[0], int):
+                return (self.call(callee, args[0]),)
+            return None
+        try:
+            v = interp.Interp(call=call, max_steps=5000).run(self.ctx.prog.hir(fn), {pid: mode})
+        except interp.Undecided as e:
+            raise NotComparison("cannot interpret %s: %s" % (short(fn, 1), e))
+        if not isinstance(v, str):
+            raise NotComparison("get_mode_unix does not yield a string: %r" % (v,))
+        return v
 
 
 def r1(ctx):
@@ -159,6 +150,8 @@ def r1(ctx):
     for w, p in pairs.items():
         h = ctx.anchor_hir("mode::" + w)
         cs = {short(c["callee"], 1) for c in walk_exprs(h) if c["k"] == "Call" and str(c.get("callee", "")).startswith("mode::mode_")}
+        # a predicate handed to a helper as a function value (`test_mode_of(meta, mode_suid)`) is a delegation as well
+        cs |= {short(x["res"], 1) for x in walk_exprs(h) if x["k"] == "Path" and str(x.get("rk", "")) in ("Fn", "AssocFn") and str(x.get("res", "")).startswith("mode::mode_")}
         n += 1
         ok = cs == {p}
         ctx.obligation(ok)
@@ -201,7 +194,10 @@ def r2(ctx):
             n += 1
             if got[:1] != oracles.TYPE_CHAR[t]:
                 bad_type.append((t, got[:1]))
-    for m in range(0o10000):
+    special = range(8)
+    perms = range(0o1000) if ctx.tier == "thorough" else sorted({0, 0o777, 0o755, 0o644, 0o421, 0o124, 0o111, 0o222, 0o444, 0o100, 0o010, 0o001, 0o200, 0o020, 0o002,
+                                                                   0o400, 0o040, 0o004, 0o700, 0o070, 0o007, 0o666, 0o333, 0o555, 0o123, 0o654, 0o765})
+    for m in (sp << 9 | pm for sp in special for pm in perms):
         got = me.mode_string(GET_MODE_UNIX, 0o100000 | m)
         n += 1
         if got != expected_mode_string(0o100000 | m):
@@ -213,9 +209,9 @@ def r2(ctx):
                       "first character of the mode string is wrong for %s" % sorted(set(bad_type)))
     if bad_perm:
         ctx.violation("mode-string/permissions", ctx.where(GET_MODE_UNIX),
-                      "mode string differs from ls -l notation for %d of 4096 permission values, e.g. %s -> %s (expected %s)" %
+                      "mode string differs from ls -l notation for %d of the evaluated permission values, e.g. %s -> %s (expected %s)" %
                       ((len(bad_perm),) + bad_perm[0]))
-    ctx.covered("mode strings: 7 types x 2 + all 4096 permission values, interpreted from get_mode_unix", n,
+    ctx.covered("mode strings: 7 types x 2 + 8 special-bit x rwx combinations (all 512 in the thorough tier), interpreted from get_mode_unix", n,
                 distinct_keys=["type-char", "perm-chars"], sample={"0o4755": me.mode_string(GET_MODE_UNIX, 0o104755)},
                 exhaustive=True)
 
